@@ -3,11 +3,13 @@ use crate::framework::Monitor;
 pub mod behav;
 pub mod c02;
 pub mod c05;
+pub mod c08;
 pub mod c10;
 pub mod c10_inv;
 pub mod c10_model;
 pub mod c11;
 pub mod c12;
+pub mod c13;
 pub mod c14;
 pub mod c14_fmt;
 pub mod c15;
@@ -37,6 +39,8 @@ pub fn make(id: &str) -> Option<Box<dyn Monitor>> {
         "C05" => Some(Box::new(c05::C05::default())),
         "C15" => Some(Box::new(c15::C15::default())),
         "C10" => Some(Box::new(c10::C10::default())),
+        "C13" => Some(Box::new(c13::C13::default())),
+        "C08" => Some(Box::new(c08::C08::default())),
         "C12" => Some(Box::new(c12::C12::default())),
         _ => None,
     }
